@@ -1,6 +1,11 @@
 package main
 
-import "golang.org/x/tools/go/ssa"
+import (
+	"fmt"
+	"go/token"
+
+	"golang.org/x/tools/go/ssa"
+)
 
 // C04 — ownership vouchers verify iff untampered; only the current owner can
 // extend. Decides the rejection direction: each exported verifier reports
@@ -8,7 +13,7 @@ import "golang.org/x/tools/go/ssa"
 
 func init() {
 	checks["C04"] = checkC04
-	explanations["C04"] = "Structural necessary condition (E1 must-pass over the success returns of the exported verifiers): VerifyHeader, VerifyManufacturerKey, VerifyCertChainHash, VerifyDeviceCertChain and VerifyEntries return nil only on paths that passed their comparison (hmac.Equal over recomputed HMAC / key hash / chain hash, x509 Verify, and per entry: Sign1.Verify true && err==nil under the previous owner key, header-hash algorithm equality, header-info hash, previous-entry hash), the entry validator recurses on entries[1:] with the verified entry's key, and ExtendVoucher succeeds only after key-type, size and current-owner-key equality and signs with that signer. Also (E3/G1) no explicit panic reachable from these entry points is control-dependent on voucher content. The chain validator reports success without recursing only when no entry is left. Not decided: that untampered vouchers do verify; bit-level tamper coverage; that hashes cover the right bytes."
+	explanations["C04"] = "Structural necessary condition (E1 must-pass over the success returns of the exported verifiers): VerifyHeader, VerifyManufacturerKey, VerifyCertChainHash, VerifyDeviceCertChain and VerifyEntries return nil only on paths that passed their comparison (hmac.Equal over recomputed HMAC / key hash / chain hash, x509 Verify, and per entry: Sign1.Verify true && err==nil under the previous owner key, header-hash algorithm equality, header-info hash, previous-entry hash), the entry validator recurses on entries[1:] with the verified entry's key, and ExtendVoucher succeeds only after key-type, size and current-owner-key equality and signs with that signer; the extension appends its entry to a slice whose capacity was clipped or that was freshly allocated, never to one sharing the input voucher's backing array (two extensions of one voucher stay independent). Also (E3/G1) no explicit panic reachable from these entry points is control-dependent on voucher content. The chain validator reports success without recursing only when no entry is left. Not decided: that untampered vouchers do verify; bit-level tamper coverage; that hashes cover the right bytes."
 }
 
 func checkC04(c *Ctx, p *Prog, r *Result) {
@@ -29,4 +34,107 @@ func checkC04(c *Ctx, p *Prog, r *Result) {
 	dumpFlow(f)
 	voucherVerifierObligations(f, r, "C04", names)
 	panicObligations(c, p, r, "C04", roots, nil)
+	c04ExtensionFresh(p, r)
+}
+
+// c04ExtensionFresh — "C04.extension-does-not-alias". A voucher extension
+// returns a new voucher and leaves its input as it was; two extensions of one
+// voucher are independent. Necessary: wherever library code appends to a slice
+// loaded from the field Voucher.Entries, the operand's capacity is cut off first
+// (a three-index slice with an explicit maximum, slices.Clip / slices.Clone, or a
+// slice made in this function), because a clone that shares the parent's backing
+// array lets the second extension overwrite the entry written by the first.
+func c04ExtensionFresh(p *Prog, r *Result) {
+	rule := "C04.extension-does-not-alias"
+	r.rule(rule, "every builtin append whose slice operand is loaded from the field Voucher.Entries (library packages) takes an operand whose capacity was clipped or that was freshly allocated: a 3-index slice with max, slices.Clip, slices.Clone, make, or append to a nil/fresh slice — otherwise two extensions of the same voucher share a backing array and the later one overwrites the earlier one's entry")
+	var fresh func(v ssa.Value, depth int) bool
+	fresh = func(v ssa.Value, depth int) bool {
+		if depth > 4 {
+			return false
+		}
+		switch x := v.(type) {
+		case *ssa.Slice:
+			return x.Max != nil
+		case *ssa.MakeSlice:
+			return true
+		case *ssa.Const:
+			return x.IsNil()
+		case *ssa.ChangeType:
+			return fresh(x.X, depth+1)
+		case *ssa.Call:
+			if b, ok := x.Call.Value.(*ssa.Builtin); ok && b.Name() == "append" && len(x.Call.Args) > 0 {
+				return fresh(x.Call.Args[0], depth+1)
+			}
+			if cal := x.Call.StaticCallee(); cal != nil && cal.Pkg != nil && cal.Pkg.Pkg.Path() == "slices" {
+				n := cal.Name()
+				if o := cal.Origin(); o != nil {
+					n = o.Name()
+				}
+				return n == "Clip" || n == "Clone"
+			}
+		}
+		return false
+	}
+	var fromEntries func(v ssa.Value, depth int) bool
+	fromEntries = func(v ssa.Value, depth int) bool {
+		if depth > 4 {
+			return false
+		}
+		switch x := v.(type) {
+		case *ssa.UnOp:
+			if fa, ok := x.X.(*ssa.FieldAddr); ok && x.Op == token.MUL {
+				return fieldName(fa.X.Type(), fa.Field) == "fdo.Voucher.Entries"
+			}
+		case *ssa.Field:
+			return fieldName(x.X.Type(), x.Field) == "fdo.Voucher.Entries"
+		case *ssa.Slice:
+			return fromEntries(x.X, depth+1)
+		case *ssa.Phi:
+			for _, e := range x.Edges {
+				if fromEntries(e, depth+1) {
+					return true
+				}
+			}
+		case *ssa.ChangeType:
+			return fromEntries(x.X, depth+1)
+		case *ssa.Call:
+			if cal := x.Call.StaticCallee(); cal != nil && cal.Pkg != nil && cal.Pkg.Pkg.Path() == "slices" && len(x.Call.Args) > 0 {
+				return fromEntries(x.Call.Args[0], depth+1)
+			}
+		}
+		return false
+	}
+	seen := map[string]int{}
+	for _, fn := range p.Funcs {
+		if fn.Pkg == nil || isHarnessPkg(fn.Pkg.Pkg.Path()) || fn.Blocks == nil {
+			continue
+		}
+		for _, b := range fn.Blocks {
+			for _, in := range b.Instrs {
+				call, ok := in.(*ssa.Call)
+				if !ok {
+					continue
+				}
+				bi, ok := call.Call.Value.(*ssa.Builtin)
+				if !ok || bi.Name() != "append" || len(call.Call.Args) == 0 {
+					continue
+				}
+				if !fromEntries(call.Call.Args[0], 0) {
+					continue
+				}
+				construct := "append to Voucher.Entries in " + p.FuncName(fn)
+				seen[construct]++
+				if seen[construct] > 1 {
+					construct = fmt.Sprintf("%s #%d", construct, seen[construct])
+				}
+				ok2 := fresh(call.Call.Args[0], 0)
+				detail := "operand capacity is clipped / freshly allocated"
+				if !ok2 {
+					detail = "the operand shares the backing array of the voucher it was loaded from (a shallow clone of the input): a second extension of the same voucher overwrites this entry"
+				}
+				r.table(p, rule, construct, p.instrPos(in), ok2, detail)
+			}
+		}
+	}
+	r.floor(rule, 1)
 }
